@@ -774,6 +774,16 @@ def check_accept(ctx, rule="T-ACCEPT"):
         ctx.require(arm is not None, "%s: the append to incoming.text is not under a match on the state" % rule)
         starts = sorted({tg for _, tg in b.term(arm)[2] if g.dominates(tg, cbb)} | ({b.term(arm)[3]} if g.dominates(b.term(arm)[3], cbb) else set()))
         ctx.require(len(starts) == 1, "%s: cannot find the arm that appends to incoming.text" % rule)
+        # which states take that arm: RFC 9293 3.10.7.4 (seventh, segment text) names ESTABLISHED, FIN-WAIT-1, FIN-WAIT-2
+        st_adt = prog.adt("tcp::tcb::state::State")
+        disc = {(int(v["discr"]) if v.get("discr") is not None else i): v["name"] for i, v in enumerate(st_adt["variants"])}
+        listed = {val for val, tg in b.term(arm)[2]}
+        takes = {disc[val] for val, tg in b.term(arm)[2] if tg == starts[0] and val in disc}
+        if b.term(arm)[3] == starts[0]:
+            takes |= {n for d_, n in disc.items() if d_ not in listed}
+        missing = {"Established", "FinWait1", "FinWait2"} - takes
+        if missing:
+            probs.append("segment text is not queued in %s (RFC 9293 3.10.7.4: ESTABLISHED, FIN-WAIT-1 and FIN-WAIT-2 accept text - only our own direction is closed): RCV.NXT stops, the peer's data is never delivered and its FIN is never reached" % ", ".join(sorted(missing)))
         try:
             t, _ = S.extract_from(prog, b, starts[0], effects=True, stop={b.term(cbb)[4]})
         except S.Unsupported as e:
@@ -833,6 +843,13 @@ def check_accept(ctx, rule="T-ACCEPT"):
             else:
                 probs.append("the octets appended are %s: not a slice of the segment text" % S.term_str(app)[:100])
     ctx.require(n >= 1, "%s: no path appends to incoming.text" % rule)
+    # every segment that reaches the text step is acknowledged there - also one that brings nothing new (an exact
+    # duplicate whose ACK was lost): otherwise the peer retransmits it for ever
+    enq = [bb for bb, t in K.calls(b) if (F.callee_key(t) or "").endswith("tcb::{impl#0}::enqueue")
+           and dep.has_field(dep.arg_origins(b, bb, 1), "ReceiveSequenceSpace", "nxt") and dep.has_call(dep.arg_origins(b, bb, 1), "::ack")]
+    for cbb, ct in cc:
+        if not g.all_paths_through(cbb, g.returns, enq):
+            probs.append("after queueing segment text process_segment can return without sending <ACK=RCV.NXT>: a duplicate of the last segment (its ACK was lost) is never acknowledged again and the sender retransmits for ever")
     (ctx.bad if probs else ctx.ok)(rule, "%s:process_segment" % rule, b.span, "; ".join(sorted(set(probs))[:2]) if probs else
         "RCV.NXT advances by slice end - slice start of the text appended; the skipped prefix is RCV.NXT - SEG.SEQ")
 
